@@ -3193,3 +3193,222 @@ pub fn c15_response_step(nd: &mut Nondet) {
         }
     }
 }
+
+// ------------------------------------------------------------------------------------------ C12 notification stream task
+use litep2p::protocol::notification::verif_hooks as nk;
+
+/// carrier of one notification substream: replays a scripted inbound byte stream and records what is written
+pub struct WireIo { nd: *mut Nondet, incoming: Vec<u8>, pos: usize, eof_after: bool, out: *mut Vec<u8>, budget: *mut u64 }
+unsafe impl Send for WireIo {}
+impl VerifIo for WireIo {}
+impl WireIo {
+    fn scripted(&mut self) -> bool { let b = unsafe { &mut *self.budget }; if *b > 0 { *b -= 1; true } else { false } }
+}
+impl AsyncRead for WireIo {
+    fn poll_read(mut self: Pin<&mut Self>, _cx: &mut Context<'_>, buf: &mut ReadBuf<'_>) -> Poll<std::io::Result<()>> {
+        let nd = unsafe { &mut *self.nd };
+        let left = self.incoming.len() - self.pos;
+        if left == 0 { return if self.eof_after { Poll::Ready(Ok(())) } else { Poll::Pending }; }
+        let scripted = self.scripted();
+        if scripted && nd.bool("read_pending") { return Poll::Pending; }
+        let room = buf.remaining();
+        let avail = if left < room { left } else { room };
+        if avail == 0 { return Poll::Ready(Ok(())); }
+        let n = if scripted && nd.bool("read_one_byte") { 1 } else { avail };
+        let pos = self.pos;
+        buf.put_slice(&self.incoming[pos..pos + n]);
+        self.pos += n;
+        Poll::Ready(Ok(()))
+    }
+}
+impl AsyncWrite for WireIo {
+    fn poll_write(mut self: Pin<&mut Self>, _cx: &mut Context<'_>, buf: &[u8]) -> Poll<std::io::Result<usize>> {
+        let nd = unsafe { &mut *self.nd };
+        if buf.is_empty() { return Poll::Ready(Ok(0)); }
+        let scripted = self.scripted();
+        if scripted && nd.bool("write_pending") { return Poll::Pending; }
+        let n = if scripted && nd.bool("write_one_byte") { 1 } else { buf.len() };
+        unsafe { (*self.out).extend_from_slice(&buf[..n]); }
+        Poll::Ready(Ok(n))
+    }
+    fn poll_flush(mut self: Pin<&mut Self>, _cx: &mut Context<'_>) -> Poll<std::io::Result<()>> {
+        let nd = unsafe { &mut *self.nd };
+        if self.scripted() && nd.bool("flush_pending") { Poll::Pending } else { Poll::Ready(Ok(())) }
+    }
+    fn poll_shutdown(self: Pin<&mut Self>, _cx: &mut Context<'_>) -> Poll<std::io::Result<()>> { Poll::Ready(Ok(())) }
+}
+
+/// frames (unsigned-varint length + payload) completely present in `wire`, and the incomplete tail
+fn wire_frames(wire: &[u8]) -> (Vec<Vec<u8>>, Vec<u8>) {
+    let mut frames = Vec::new();
+    let mut i = 0usize;
+    while i < wire.len() {
+        let (len, used) = match unsigned_varint::decode::usize(&wire[i..]) {
+            Ok((len, rest)) => (len, wire.len() - i - rest.len()),
+            Err(_) => break,                       // the length prefix itself is incomplete
+        };
+        if i + used + len > wire.len() { break; }
+        frames.push(wire[i + used..i + used + len].to_vec());
+        i += used + len;
+    }
+    (frames, wire[i..].to_vec())
+}
+
+/// length prefix + payload as they should appear on the wire
+fn framed(payload: &[u8]) -> Vec<u8> {
+    let mut buf = unsigned_varint::encode::usize_buffer();
+    let mut out = unsigned_varint::encode::usize(payload.len(), &mut buf).to_vec();
+    out.extend_from_slice(payload);
+    out
+}
+
+/// C12: the per-stream notification task (`notification::Connection::start`, its `poll_next`, the user-side
+/// `NotificationSink`) between two real substreams over scripted carriers. Everything accepted for sending reaches
+/// the wire once, in order; everything the remote sent within the size limit reaches the user once, in order; a
+/// closed stream delivers a prefix; the synchronous send never waits; the asynchronous one waits only for capacity.
+pub fn c12_notification_stream(nd: &mut Nondet) {
+    // `big`: notifications above the substream's back-pressure boundary (the sink refuses new items while it flushes)
+    let big = param("big", 0) == 1;
+    let max_size: usize = if big { 100000 } else { 3 };
+    const MAX: usize = 3;
+    let big_data = if big { nd.pattern(4 * 70001) } else { Vec::new() };
+    let peer = nd.peer_id_fixed(1);
+    let async_mode = nd.bool("async_mode");
+    // the queue of the sending mode in use has 1 or 2 slots (the other queue stays empty)
+    let capacity = 1 + nd.choose("send_capacity", 2) as usize;
+    let (sync_cap, async_cap) = (capacity, capacity);
+    let notif_cap = if big { 1 } else { 1 + nd.choose("user_capacity", 2) as usize };
+    // what the remote sends: up to two frames, optionally followed by one that exceeds the maximum
+    let n_in = if big { 0 } else { 2 * nd.choose("inbound_frames", 2) as usize };
+    let oversized = if big { false } else { nd.bool("inbound_oversized") };
+    let remote_closes = if big { false } else { nd.bool("remote_closes") };
+    let mut expected_in: Vec<Vec<u8>> = Vec::new();
+    let mut incoming: Vec<u8> = Vec::new();
+    for i in 0..n_in {
+        let payload = if i == 0 { vec![0xA0u8] } else { vec![0xA1u8, 0xA2] };
+        incoming.push(payload.len() as u8);
+        incoming.extend_from_slice(&payload);
+        expected_in.push(payload);
+    }
+    if oversized { incoming.push((MAX + 1) as u8); incoming.extend_from_slice(&[0xEE; MAX + 1]); }
+    let mut wire: Vec<u8> = Vec::new();
+    let mut sink_hole: Vec<u8> = Vec::new();
+    let mut write_budget = param("write_budget", 2);
+    let mut read_budget = param("read_budget", 1);
+    let ndp = nd as *mut Nondet;
+    let inbound = Substream::new_verif(peer, SubstreamId::from(0usize),
+        Box::new(WireIo { nd: ndp, incoming, pos: 0, eof_after: remote_closes, out: &mut sink_hole as *mut Vec<u8>, budget: &mut read_budget as *mut u64 }),
+        ProtocolCodec::UnsignedVarint(Some(max_size)));
+    let outbound = Substream::new_verif(peer, SubstreamId::from(1usize),
+        Box::new(WireIo { nd: ndp, incoming: Vec::new(), pos: 0, eof_after: false, out: &mut wire as *mut Vec<u8>, budget: &mut write_budget as *mut u64 }),
+        ProtocolCodec::UnsignedVarint(Some(max_size)));
+    let (mut kernel, sink) = nk::new_kernel(peer, inbound, outbound, sync_cap, async_cap, notif_cap);
+    let waker = noop_waker();
+    let mut cx = Context::from_waker(&waker);
+
+    let mut accepted: Vec<Vec<u8>> = Vec::new();
+    let mut received: Vec<Vec<u8>> = Vec::new();
+    let mut waiting: Option<(Pin<Box<dyn Future<Output = litep2p::Result<()>>>>, Vec<u8>)> = None;
+    let mut next_tag = 1u8;
+    let mut shutdown_requested = false;
+    let mut closed_events = 0usize;
+    let steps = param("steps", 5);
+    let total = steps + 12;                      // the tail runs the task and the reader without further commands
+    for step in 0..total {
+        let tail = step >= steps;
+        let action = if tail { if step % 2 == 0 { 1 } else { 2 } } else { nd.choose("action", 4) };
+        match action {
+            0 => {
+                // the user sends the next notification (1 or 2 bytes, tagged with its sequence number)
+                if waiting.is_some() { assume(false); }
+                let payload = if big {
+                    let k = (next_tag - 1) as usize;
+                    if k >= 4 { assume(false); }
+                    big_data[k * 70001..k * 70001 + 70000 + k % 2].to_vec()
+                } else if nd.bool("two_bytes") { vec![next_tag, next_tag] } else { vec![next_tag] };
+                next_tag += 1;
+                if async_mode {
+                    let s = sink.clone();
+                    let p = payload.clone();
+                    let mut fut: Pin<Box<dyn Future<Output = litep2p::Result<()>>>> = Box::pin(async move { s.send_async_notification(p).await });
+                    match fut.as_mut().poll(&mut cx) {
+                        Poll::Ready(Ok(())) => { cover("c12.async.accepted"); accepted.push(payload); }
+                        Poll::Ready(Err(_)) => { cover("c12.async.refused"); check("c12.send-is-refused-only-on-a-closed-stream", kernel.finished()); }
+                        Poll::Pending => {
+                            cover("c12.async.waits");
+                            let (on_wire, _) = wire_frames(&wire);
+                            check("c12.async-send-waits-only-for-capacity", accepted.len() - on_wire.len() >= async_cap);
+                            waiting = Some((fut, payload));
+                        }
+                    }
+                } else {
+                    match sink.send_sync_notification(payload.clone()) {
+                        Ok(()) => { cover("c12.sync.accepted"); accepted.push(payload); }
+                        Err(litep2p::protocol::notification::NotificationError::ChannelClogged) => {
+                            cover("c12.sync.clogged");
+                            let (on_wire, _) = wire_frames(&wire);
+                            check("c12.sync-send-reports-clogged-only-when-the-queue-is-full", accepted.len() - on_wire.len() >= sync_cap);
+                        }
+                        Err(_) => { cover("c12.sync.refused"); check("c12.send-is-refused-only-on-a-closed-stream", kernel.finished()); }
+                    }
+                }
+            }
+            1 => {
+                // the executor polls the stream task; a waiting asynchronous send is polled after it
+                if !kernel.finished() { if kernel.poll_task(&mut cx) { cover("c12.task-finished"); } }
+                if let Some((mut fut, payload)) = waiting.take() {
+                    match fut.as_mut().poll(&mut cx) {
+                        Poll::Ready(Ok(())) => { cover("c12.async.accepted-after-waiting"); accepted.push(payload); }
+                        Poll::Ready(Err(_)) => { check("c12.send-is-refused-only-on-a-closed-stream", kernel.finished()); }
+                        Poll::Pending => { waiting = Some((fut, payload)); }
+                    }
+                }
+            }
+            2 => {
+                // the user reads one notification
+                if let Some((from, bytes)) = kernel.user_receive() {
+                    cover("c12.user.received");
+                    check("c12.notification-names-the-peer", from == peer);
+                    check("c12.inbound-in-order-without-loss-or-duplicate", received.len() < expected_in.len() && bytes == expected_in[received.len()]);
+                    check("c12.oversized-notification-is-never-delivered", bytes.len() <= MAX);
+                    received.push(bytes);
+                }
+            }
+            _ => {
+                // the protocol shuts the stream down
+                if shutdown_requested { assume(false); }
+                shutdown_requested = true;
+                kernel.request_shutdown();
+                cover("c12.shutdown-requested");
+            }
+        }
+        // ---- the wire is always a prefix of what was accepted: in order, nothing skipped, nothing twice
+        let (on_wire, partial) = wire_frames(&wire);
+        check("c12.wire-carries-at-most-what-was-accepted", on_wire.len() <= accepted.len());
+        for k in 0..on_wire.len() { check("c12.outbound-in-order-without-loss-or-duplicate", on_wire[k] == accepted[k]); }
+        if !partial.is_empty() {
+            let ok = on_wire.len() < accepted.len() && {
+                let full = framed(&accepted[on_wire.len()]);
+                partial.len() < full.len() && partial[..] == full[..partial.len()]
+            };
+            check("c12.partial-frame-belongs-to-the-next-accepted-notification", ok);
+        }
+        if let Some(p) = kernel.user_closed_event() { check("c12.closed-event-names-the-peer", p == peer); closed_events += 1; }
+        check("c12.closed-is-reported-once", closed_events <= 1);
+        if closed_events == 1 { check("c12.closed-is-reported-by-the-finished-task", kernel.finished()); }
+    }
+    // ---- after the quiet tail
+    let (on_wire, partial) = wire_frames(&wire);
+    if kernel.finished() {
+        cover("c12.closed");
+        check("c12.finished-task-told-the-user", closed_events == 1);
+        let reason = shutdown_requested || remote_closes || oversized;
+        check("c12.stream-closes-only-for-a-reason", reason);
+    } else {
+        cover("c12.open");
+        check("c12.nothing-accepted-is-withheld-on-an-open-stream", on_wire.len() == accepted.len() && partial.is_empty() && waiting.is_none());
+        check("c12.everything-sent-within-the-limit-is-delivered", received.len() == expected_in.len());
+        check("c12.a-remote-close-or-an-oversized-frame-ends-the-stream", !(remote_closes || oversized));
+    }
+
+}
